@@ -43,7 +43,9 @@ NoLookup == [on |-> FALSE, t0 |-> 0, dl |-> 0, forced |-> "none", nq |-> 0, nsen
              server |-> 0, srv |-> 0, txt |-> 0, addrs |-> {}, seen |-> {}, pend |-> <<>>, done |-> FALSE, sentAny |-> FALSE, fc |-> FALSE]
 InitState ==
   [rec |-> [i \in Ids |-> None], lastDid |-> 0, lastProc |-> -100000, lastQU |-> FALSE,
-   hist |-> [q \in 1..4 |-> [w \in {"inst", "h1", "h2"} |-> NoHist]], lk |-> NoLookup, err |-> ""]
+   hist |-> [q \in 1..4 |-> [w \in {"inst", "h1", "h2"} |-> NoHist]], lk |-> NoLookup,
+   objk |-> [srv |-> 0, txt |-> 0, addrs |-> {}],   \* what the info object of the last lookup ended up with (kept when the object is used again)
+   err |-> ""]
 
 Alive(st, i, t) == st.rec[i] # None /\ ~IsExpired(st.rec[i], t)
 Fresh(st, i, t) == st.rec[i] # None /\ ~(st.rec[i].c + 500 * st.rec[i].ttl <= t)
@@ -95,11 +97,17 @@ OnLookup(st, e) ==
   LET t == e.t
       srvs == {i \in Ids : Kind(i) = "srv" /\ Alive(st, i, t)}
       txts == {i \in Ids : Kind(i) = "txt" /\ Alive(st, i, t)}
-      srv == IF srvs = {} THEN 0 ELSE CHOOSE i \in srvs : TRUE
-      txt == IF txts = {} THEN 0 ELSE CHOOSE i \in txts : TRUE
+      \* a lookup with the object of the previous lookup starts from what that object holds (it read those records while they were
+      \* alive): an SRV / TXT record of the cache replaces what it has, otherwise host, port and text stay; when the host stays
+      \* the same the addresses it has stay as well and those of the cache are added, a new host replaces them by the cache's
+      reuse == "reuse" \in DOMAIN e /\ e.reuse
+      old == IF reuse THEN st.objk ELSE [srv |-> 0, txt |-> 0, addrs |-> {}]
+      srv == IF srvs = {} THEN old.srv ELSE CHOOSE i \in srvs : TRUE
+      txt == IF txts = {} THEN old.txt ELSE CHOOSE i \in txts : TRUE
       h == IF srv = 0 THEN 0 ELSE HostOf(srv)
-      ad == IF h = 0 THEN {} ELSE AddrsOfHost(st.rec, h, t)
-  IN IF Bad(Cardinality({i \in Ids : Kind(i) = "srv" /\ st.rec[i] # None}) > 1, "Trace_Malformed") THEN Fail(st, "Trace_Malformed")
+      hOld == IF old.srv = 0 THEN 0 ELSE HostOf(old.srv)
+      ad == IF h = 0 THEN {} ELSE (IF h = hOld THEN old.addrs ELSE {}) \cup AddrsOfHost(st.rec, h, t)
+  IN IF Bad(Cardinality(srvs) > 1, "Trace_Malformed") THEN Fail(st, "Trace_Malformed")      \* generator domain: one live SRV identity
      ELSE [st EXCEPT !.lk = [NoLookup EXCEPT !.on = TRUE, !.t0 = t, !.dl = t + e.timeout, !.forced = e.forced, !.nextAt = t,
                                              !.server = h, !.srv = srv, !.txt = txt, !.addrs = ad, !.seen = ad,
                                              !.done = ad # {}, !.fc = ad # {}]]
@@ -161,7 +169,7 @@ OnRet(st, e) ==
      ELSE IF Bad(e.text # lk.txt, "C18_FromLiveTxt") THEN Fail(st, "C18_FromLiveTxt")
      ELSE IF Bad(~(ToSet(e.addrs) \subseteq validAddrs), "C18_AddressesOfHost") THEN Fail(st, "C18_AddressesOfHost")
      ELSE IF Bad(lk.fc /\ ToSet(e.addrs) # lk.addrs, "C18_AllFromCache") THEN Fail(st, "C18_AllFromCache")
-     ELSE [st EXCEPT !.lk = NoLookup]
+     ELSE [st EXCEPT !.lk = NoLookup, !.objk = [srv |-> lk.srv, txt |-> lk.txt, addrs |-> ToSet(e.addrs)]]
 
 Pre(st0, t) ==
   LET st == Purge(st0, t) IN
